@@ -29,6 +29,7 @@ import Vlsp.Model.Pypi
 import Vlsp.Props.C04Layout
 import Vlsp.Props.C04LayoutToml
 import Vlsp.Props.C04LayoutPy
+import Vlsp.Props.C04Reading
 import Vlsp.Model.Config
 
 /-! Line-protocol plumbing shared by the driver's op tables. -/
@@ -523,7 +524,7 @@ def ptableStr (t : C04.PTable) : String :=
     ";".intercalate (t.pairs.map fun p => ",".intercalate (p.map ptokStr)) ++ "]"
 
 /-- `x.abs <eco> <text> <dump>` : the abstract reading of the real tree (the premise of the layout theorems):
-    abstract JSON for package.json / deno.json, abstract TOML for Cargo.toml and pyproject.toml -/
+    abstract JSON for package.json / deno.json, abstract TOML for Cargo.toml and pyproject.toml, the position-free readings of workflows and pnpm-workspace.yaml -/
 def absStep (op : String) (f : List Text) : Option String :=
   match op, f with
   | "x.abs", [eco, text, dump] =>
@@ -532,6 +533,10 @@ def absStep (op : String) (f : List Text) : Option String :=
     | some tree =>
       if eco == "crates".toList then some (" ".intercalate ((C04.normToml (C04.absToml text tree)).map atableStr))
       else if eco == "pypi".toList then some (" ".intercalate ((C04.normPy (C04.absPy text tree)).map ptableStr))
+      else if eco == "gha".toList then
+        some (";".intercalate ((C04.readingGha text tree).map fun r => hex r.1 ++ (match r.2 with | some c => "#" ++ hex c | none => "")))
+      else if eco == "pnpm".toList then
+        some (";".intercalate ((C04.readingPnpm text tree).map fun r => match r with | some (k, v) => hex k ++ "=" ++ hex v | none => "-"))
       else if eco == "jsr".toList then some (match C04.absRootC text tree with | some a => ajsonStr a | none => "-")
       else some (match C04.absRoot text tree with | some a => ajsonStr a | none => "-")
   | _, _ => none
